@@ -45,6 +45,49 @@ def node_stub(it):
     return ast_from_source(it, "x", "eval").fields["body"]
 
 
+def constant_payload_obligations(chk, e, v, in_nat, in_int, tag=""):
+    """python_value_to_hugr / UnsignedIntVal: an int / nat constant reaches the HUGR with exactly its
+    value at log-width 6 (shared with C04: operators applied to compile-time constants)."""
+    # ---- constant payload: python_value_to_hugr(int) carries exactly v at width 6
+    from .bindings import rec
+    e.ext_models["hugr.std.int.IntVal"] = rec("IntVal")
+    e.ext_models["hugr.val.Extension"] = rec("Extension")
+    e.ext_models["hugr.std.int.int_t"] = rec("int_t")
+    chk.assumptions.append("hugr.std.int.IntVal(v, width) / hugr.val.Extension(name, typ, val) are external constructors modelled as records: the obligation is what /repo passes to them")
+    for kind in ("Nat", "Int"):
+        def t_h(it, kind=kind):
+            m = e.module("guppylang_internals.compiler.expr_compiler")
+            tm = e.module("guppylang_internals.tys.ty")
+            NT = it.lookup_global(tm, "NumericType")
+            ty = it.call(NT, [it.getattr(it.getattr(NT, "Kind"), kind)], {})
+            it.ctx.assume(in_nat if kind == "Nat" else in_int)  # established by the checker (above)
+            r = it.call(it.lookup_global(m, "python_value_to_hugr"), [SInt(v), ty, None], {})
+            if kind == "Nat":
+                return r, it.call_method(r, "to_value", [])
+            return r, None
+        paths = e.explore(t_h)
+
+        def post_h(p, kind=kind):
+            if p.kind != "return":
+                return z3.BoolVal(False)
+            r, tv = p.value
+            if kind == "Int":
+                if not (isinstance(r, SObj) and r.cls.name == "IntVal"):
+                    return z3.BoolVal(False)
+                a = r.fields["args"]
+                w = r.fields.get("width", a[1] if len(a) > 1 else None)
+                return z3.And(zint(a[0]) == v, z3.BoolVal(w == 6))
+            if not (isinstance(r, SObj) and r.cls.name == "UnsignedIntVal"):
+                return z3.BoolVal(False)
+            payload = tv.fields.get("val")
+            return z3.And(zint(r.fields["v"]) == v, z3.BoolVal(r.fields["width"] == 6),
+                          z3.BoolVal(tv.fields["args"][0] == "ConstInt"),
+                          zint(payload["value"]) == v, z3.BoolVal(payload["log_width"] == 6))
+        chk.prove_paths(f"{tag}python_value_to_hugr(int,{kind}):payload==v/\\log_width==6", paths, post_h,
+                        func="guppylang_internals.compiler.expr_compiler:python_value_to_hugr")
+
+
+
 def run(chk):
     e = mk_engine(chk)
     for q in ("_int_bounds_check", "python_value_to_guppy_type", "_python_list_to_guppy_type"):
@@ -147,43 +190,7 @@ def run(chk):
     chk.prove_paths("ExprBuilder.visit_UnaryOp:USub(Constant(v))|->Constant(-v)", paths, post_fold,
                     func="guppylang_internals.cfg.builder:ExprBuilder.visit_UnaryOp")
 
-    # ---- constant payload: python_value_to_hugr(int) carries exactly v at width 6
-    from .bindings import rec
-    e.ext_models["hugr.std.int.IntVal"] = rec("IntVal")
-    e.ext_models["hugr.val.Extension"] = rec("Extension")
-    e.ext_models["hugr.std.int.int_t"] = rec("int_t")
-    chk.assumptions.append("hugr.std.int.IntVal(v, width) / hugr.val.Extension(name, typ, val) are external constructors modelled as records: the obligation is what /repo passes to them")
-    for kind in ("Nat", "Int"):
-        def t_h(it, kind=kind):
-            m = e.module("guppylang_internals.compiler.expr_compiler")
-            tm = e.module("guppylang_internals.tys.ty")
-            NT = it.lookup_global(tm, "NumericType")
-            ty = it.call(NT, [it.getattr(it.getattr(NT, "Kind"), kind)], {})
-            it.ctx.assume(in_nat if kind == "Nat" else in_int)  # established by the checker (above)
-            r = it.call(it.lookup_global(m, "python_value_to_hugr"), [SInt(v), ty, None], {})
-            if kind == "Nat":
-                return r, it.call_method(r, "to_value", [])
-            return r, None
-        paths = e.explore(t_h)
-
-        def post_h(p, kind=kind):
-            if p.kind != "return":
-                return z3.BoolVal(False)
-            r, tv = p.value
-            if kind == "Int":
-                if not (isinstance(r, SObj) and r.cls.name == "IntVal"):
-                    return z3.BoolVal(False)
-                a = r.fields["args"]
-                w = r.fields.get("width", a[1] if len(a) > 1 else None)
-                return z3.And(zint(a[0]) == v, z3.BoolVal(w == 6))
-            if not (isinstance(r, SObj) and r.cls.name == "UnsignedIntVal"):
-                return z3.BoolVal(False)
-            payload = tv.fields.get("val")
-            return z3.And(zint(r.fields["v"]) == v, z3.BoolVal(r.fields["width"] == 6),
-                          z3.BoolVal(tv.fields["args"][0] == "ConstInt"),
-                          zint(payload["value"]) == v, z3.BoolVal(payload["log_width"] == 6))
-        chk.prove_paths(f"python_value_to_hugr(int,{kind}):payload==v/\\log_width==6", paths, post_h,
-                        func="guppylang_internals.compiler.expr_compiler:python_value_to_hugr")
+    constant_payload_obligations(chk, e, v, in_nat, in_int)
 
     # ---- literals survive CFG construction: the real CFGBuilder/ExprBuilder/BranchBuilder executed on
     # programs that put literals (negated ones are folded in place by ExprBuilder.visit_UnaryOp) in
